@@ -122,6 +122,14 @@ def impl(case):
             return [[1]]
         if st != "ok":
             return [[-2], [st]]
+        # the default ftype='infer' takes the first format the raster is valid for (D8 before LDD before NEXTXY): a valid D8
+        # raster is D8 even when its codes are all legal LDD codes (round-5 seed); an LDD raster with a code no D8 raster
+        # has is LDD; a two-layer raster is NEXTXY
+        srcvals = set(int(x) for x in a[4]) if src < 2 else set()
+        if src == 0 or src == 2 or (srcvals & {3, 5, 6, 7, 9}):
+            st, fi = call_impl(pyflwdir.from_array, data)
+            if st != "ok" or fi.ftype != FMT[src] or _net(fi) != _net(flw):
+                return [[-6], [f"source raster parsed with ftype='infer' gives {getattr(fi, 'ftype', st)} / another network than ftype={FMT[src]!r}"]]
         # a third of the exports each from objects holding the same network with uint32 / int64 cell indices (the missing
         # value is then the largest value of the type, resp. -1): round-3 seed
         sel = (sum(int(x) for x in a[4]) + tgt) % 3
@@ -141,6 +149,11 @@ def impl(case):
         rt = _round_trip(pyflwdir, flw, v, tgt, data, src, nr, nc)
         if rt:
             return [[-6], [rt]]
+        # the default export is the export to the object's own format, whatever was exported before (round-5 seed)
+        st0, v0 = call_impl(flw.to_array)
+        st1, v1 = call_impl(flw.to_array, FMT[src])
+        if st0 != st1 or (st0 == "ok" and not np.array_equal(np.asarray(v0), np.asarray(v1))):
+            return [[-6], [f"to_array() after to_array({FMT[tgt]!r}) is not the export to the source format {FMT[src]!r}"]]
         if tgt < 2:
             if v.dtype != np.uint8 or v.shape != (nr, nc):
                 return [[-3], [str(v.dtype)]]
